@@ -7,7 +7,7 @@ import gen as G
 
 class C12(Prop):
     pid = "C12"
-    fields = dict(Prop.fields, snappath="*")
+    fields = dict(Prop.fields, snappath=["probe", "cfgsame", "path"])
     rule = ("sequences of the five Match* entry points issued through 1-3 shared Config handles (and the package "
             "defaults) with random option sets (Dir, Filename, Ext, Update), all creating; the oracle recomputes every "
             "call's location from the Config's options alone (independent reading of the naming rule) and compares it with "
@@ -128,8 +128,15 @@ class C12(Prop):
                     if api in ("json", "standjson") and o["outcome"] == "added" and kv.get("pre", "").startswith("ok:") and final is not None and len(w) == 1 and w[0] not in rewritten:
                         content = final.get(w[0])
                         if content is not None and unhx(kv["pre"][3:]) not in unhx(content):
-                            fails.append({"msg": "obs %d (%s via handle %d): the stored text is not the rendering its Config's options give: %r"
-                                                 % (idx, api, h, unhx(kv["pre"][3:])[:80])})
+                            f_ = {"msg": "obs %d (%s via handle %d): the stored text is not the rendering its Config's options give: %r"
+                                         % (idx, api, h, unhx(kv["pre"][3:])[:80])}
+                            # with NO JSON option on the handle the layout is the entry point's default - a parameter this harness
+                            # reads from the package defaults: a different default for one entry point is a broken tie, not a
+                            # call that depends on what went through the Config before
+                            raw_cfgs = [o_ for o_ in case["ops"] if o_["op"] == "newconfig"]
+                            if not (0 < h <= len(raw_cfgs) and (raw_cfgs[h - 1].get("json") or raw_cfgs[h - 1].get("json2"))):
+                                f_["tie"] = True
+                            fails.append(f_)
         return fails
 
     def nontrivial(self, case, ops, results):
